@@ -130,6 +130,10 @@ func c07build(c *Ctx, r *mon.Rand, i int) *refMsg {
 			}
 		}
 		l := gen.RandLayer(r, gen.LayerOpts{Alg: ap, MaxProt: maxProt, MaxUnprot: 3, ScramblePct: scramble, FillTo: fill})
+		if r.Intn(50) == 0 {
+			// a header value with thousands of elements (unprotected, where the envelope decoder reads it)
+			l.AddUnprot(int64(99001), gen.HugeValue(r))
+		}
 		return l
 	}
 	depth := 0
